@@ -163,7 +163,27 @@ func checkParseContractCfg(t *fw.T, src string, label string, cfgOverride []Cfg)
 			continue
 		}
 		if (po.Err != nil) != (len(po.Errors) > 0) {
-			t.Violate("error-iff-list", fmt.Sprintf("err=%v list=%d", po.Err != nil, len(po.Errors)), fmt.Sprintf("error value %v but %d entries in the error list for %q", po.Err, len(po.Errors), clip(src, 120)), wit())
+			t.Violate("error-iff-list", fmt.Sprintf("err=%v list-non-empty=%v", po.Err != nil, len(po.Errors) > 0), fmt.Sprintf("error value %v but %d entries in the error list for %q", po.Err, len(po.Errors), clip(src, 120)), wit())
+		}
+		// the contract is per call: asking the same parser for the program once more must again terminate, return a
+		// program, and return an error value iff the (accumulated) error list is non-empty
+		if po.P != nil && t.Index%2 == 0 {
+			var p2 *ast.Program
+			var e2 error
+			if t.Guard("second ParseProgram on the same parser ("+m.String()+")", wit, func() { p2, e2 = po.P.ParseProgram() }) {
+				t.Count("repeated_parse_calls", 1)
+				n2 := len(po.P.Errors())
+				switch {
+				case p2 == nil:
+					t.Violate("nil-program", m.String()+"/second call", "a second ParseProgram call on the same parser returned a nil program for "+fmt.Sprintf("%q", clip(src, 120)), wit())
+				case (e2 != nil) != (n2 > 0):
+					t.Violate("error-iff-list", fmt.Sprintf("second call err=%v list-non-empty=%v", e2 != nil, n2 > 0), fmt.Sprintf("second ParseProgram call: error value %v but %d entries in the error list for %q", e2, n2, clip(src, 120)), wit())
+				default:
+					if pr := walkTree(p2, false); len(pr) > 0 {
+						t.Violate("nil-statement", "second call "+pr[0], "second ParseProgram call: "+pr[0]+" for "+fmt.Sprintf("%q", clip(src, 120)), wit())
+					}
+				}
+			}
 		}
 		var probs []string
 		if !t.Guard("walk tree", wit, func() { probs = walkTree(po.Prog, po.Err == nil && len(po.Errors) == 0) }) {
